@@ -28,6 +28,9 @@ PREFIX = {
     'warn': ['>>> import warnings', '>>> warnings.warn("w")'],
     'await': ['>>> import asyncio', '>>> await asyncio.sleep(0)'],
     'pathappend': ['>>> import sys', '>>> _n = len(sys.path)'],
+    # a met module requirement: answering it means looking the module up on sys.path
+    'reqmodule': ['>>> # xdoctest: +REQUIRES(module:json.decoder)', '>>> # xdoctest: +REQUIRES(module:xv_c12_unknown_mod)',
+                  '>>> # xdoctest: -REQUIRES(module:xv_c12_unknown_mod)'],
 }
 TERM = {
     'pass': ['>>> x = 1'],
@@ -69,6 +72,8 @@ DIMS = [
     # the stdout the library finds (and tees into at verbosity >= 2): a StringIO, an object that only has
     # write(), an object whose flush() raises
     ('host', ['stringio', 'writeonly', 'flushraises']),
+    # sys.path as the library finds it: as it is, or starting with '' (python -c, the interactive prompt)
+    ('path0', ['asis', 'empty-string-first']),
 ]
 
 
@@ -136,7 +141,7 @@ def restore(before):
             pass
 
 
-def run_doctest_case(lines, on_error, verbose, modsrc=None, tag='c12', path_edit=None, host='stringio'):
+def run_doctest_case(lines, on_error, verbose, modsrc=None, tag='c12', path_edit=None, host='stringio', path0='asis'):
     """returns (how it ended, leaked keys)"""
     from xdoctest.doctest_example import DocTest
     with contextlib.ExitStack() as stack:
@@ -155,6 +160,9 @@ def run_doctest_case(lines, on_error, verbose, modsrc=None, tag='c12', path_edit
         sink = {'stringio': io.StringIO, 'writeonly': WriteOnly, 'flushraises': FlushRaises}[host]()
         saved_out = sys.stdout
         sys.stdout = sink                  # the "original" stdout as the library finds it
+        outer_path = list(sys.path)
+        if path0 == 'empty-string-first':
+            sys.path.insert(0, '')
         before = snap()
         try:
             try:
@@ -172,6 +180,7 @@ def run_doctest_case(lines, on_error, verbose, modsrc=None, tag='c12', path_edit
             bad = diff(exp, after)
         finally:
             restore(before)
+            sys.path[:] = outer_path
             sys.stdout = saved_out
             if modname:
                 harness.forget_modules(modname)
@@ -209,7 +218,7 @@ class OutcomeSpec(Spec):
         return len(hist) == len(DIMS)
 
     def run_case(self, hist):
-        prefix, term, pos, on_error, verbose, host = hist
+        prefix, term, pos, on_error, verbose, host, path0 = hist
         modsrc = None
         if term.startswith('import_'):
             tl = ['>>> x = 1']
@@ -218,7 +227,7 @@ class OutcomeSpec(Spec):
             tl = TERM[term]
         plines = (PREFIX[prefix[0]] + PREFIX[prefix[1]]) if isinstance(prefix, (tuple, list)) else PREFIX[prefix]
         lines = plines + tl + (['>>> y = 2'] if pos == 'middle' else [])
-        how, bad, t = run_doctest_case(lines, on_error, verbose, modsrc, host=host,
+        how, bad, t = run_doctest_case(lines, on_error, verbose, modsrc, host=host, path0=path0,
                                        path_edit={'import_pathins_then_raises': ('front', '/nonexistent_zz'),
                                                   'import_pathapp_then_ImportError': ('end', '/nonexistent_yy')}.get(term))
         atoms = []
